@@ -337,6 +337,17 @@ func (r *rewriter) rewriteFile() error {
 			}
 			c.Replace(r.call(fn, n.X))
 		case *ast.CallExpr:
+			// runtime.SetFinalizer(x, f): finalizers run at the garbage collector's whim on a goroutine
+			// of its own, or never; "never" is an execution Go allows, and the only one that replays.
+			if sel, ok := n.Fun.(*ast.SelectorExpr); ok && sel.Sel.Name == "SetFinalizer" && r.isPkgName(sel.X) {
+				if pn, _ := r.info.Uses[sel.X.(*ast.Ident)].(*types.PkgName); pn != nil && pn.Imported().Path() == "runtime" {
+					// stays a call of runtime.SetFinalizer (the import remains used) but on a throw-away
+					// object with a nil finalizer, which is a no-op; the original operands are kept
+					// alive as arguments of a no-op helper so that nothing becomes "declared and not used"
+					keep := &ast.CallExpr{Fun: r.core("NoFinalizer"), Args: n.Args}
+					n.Args = []ast.Expr{&ast.CallExpr{Fun: r.core("Scratch"), Args: []ast.Expr{keep}}, ast.NewIdent("nil")}
+				}
+			}
 			if id, ok := n.Fun.(*ast.Ident); ok && len(n.Args) == 1 {
 				switch {
 				case r.isBuiltin(id, "close"):
